@@ -110,9 +110,12 @@ def us : String := "usort k=30,10,20,5 h=-1 fl=4,4,4,4 of=0,1,2,3 fd=0 fo=0 nc=0
 #guard has (judge ["usort k=30,10,20 h=1 fl=4,4,4 of=0,1,2 fd=0 fo=0 nc=0 nd=0 ix=- ts=-"] ["ft 1,2,0", "of 2,0,1", "ts -"])
   "usort-table-not-sorted"        -- the '#' entry must be last
 #guard judge ["ureloc size=4096 f=200,300,400,500,600,700,800,900,0,1000,1100,1200,1300"]
-  ["reloc 200,300,400,500,600,700,800,900,wild,1000,1100,1200,1300"] == []
+  ["reloc 200,300,400,500,600,700,800,900,null,1000,1100,1200,1300"] == []
 #guard has (judge ["ureloc size=4096 f=200,300,400,500,600,700,800,900,0,1000,1100,1200,1300"]
-  ["reloc 200,300,400,500,600,700,800,900,wild,1000,1100,1200,1308"]) "reloc-offsets-not-preserved"
+  ["reloc 200,300,400,500,600,700,800,900,null,1000,1100,1200,1308"]) "reloc-offsets-not-preserved"
+-- a NULL inherit pointer must still be NULL after the load (not the wild pointer b2 - b1)
+#guard has (judge ["ureloc size=4096 f=200,300,400,500,600,700,800,900,0,1000,1100,1200,1300"]
+  ["reloc 200,300,400,500,600,700,800,900,wild,1000,1100,1200,1300"]) "reloc-offsets-not-preserved"
 #guard has (judge ["utimes 100 101 /c17/w/t/x"] ["times 1"]) "check-times-wrong"
 #guard has (judge ["utimes 100 100 /c17/w/t/x"] ["times 0"]) "check-times-wrong"
 #guard has (judge ["utimes 100 none /c17/w/t/x"] ["times 1"]) "check-times-wrong"
